@@ -26,7 +26,7 @@ CHECKS = {
    level="exploration",
    technique="property-based testing (proptest histories from a tape-driven query grammar, token soup, corpus mutation, aimed shapes, raw Unicode) with a crash/hang oracle in a supervised worker process and a static cost classifier",
    text="Histories of 20-120 input lines (<= 500 chars) are evaluated in order on one long-lived context inside a worker process with an 8 MiB main-thread stack and a 3 GiB address-space cap; each cheap input must come back from eval, to_string, the span tree and serde_json within 20 s (re-run alone with 60 s before a hang counts); panics are caught and reported by the worker, signal deaths (stack overflow, allocation abort) and overruns by the supervisor; a sentinel query every 10th position must keep its answer. A search: absence of crashes is never established.",
-   note="Inputs are classed cheap/expensive statically (literal exponents <= 5000, digits <= 10000, every intermediate <= 2^15 bits by abstract interpretation, factorize operands of complexity <= 6); expensive ones are skipped and counted.",
+   note="Inputs are classed cheap/expensive statically (literal exponents <= 5000, digits <= 10000, every intermediate <= 2^15 bits by abstract interpretation); expensive ones are skipped and counted, except a fixed alphabet of 131 extreme literals that is run with a 1 s budget (overrun tolerated, crash not). A ladder of 58 factorize operands of every complexity runs with the ordinary budget.",
    design="§4 C04, §2.1, §2.2"),
  "C06": dict(
    level="exploration",
@@ -38,7 +38,7 @@ CHECKS = {
    level="exploration",
    technique="exhaustive re-evaluation of every stored definition (a metamorphic fixed-point relation) plus structural invariants, in two configurations",
    text="Core and core+currency databases are loaded (must report nothing, including parser warnings captured from fd 1); every stored definition with a stored unit is re-evaluated in the loaded context and must equal the stored value and dimensionality; declared base units only, quantity names unique, alias chains end, docs/categories belong to existing names, categories have display names, substance properties re-evaluate, two loads give identical exact dumps.",
-   note="Currency overlay is the repo's snapshot. Substance properties that refer to sibling properties are counted, not checked.",
+   note="Currency overlay is the repo's snapshot. Substance properties that refer to sibling properties (names that exist only while the substance loads) are re-evaluated with the sibling names replaced by their definitions.",
    design="§4 C08"),
  "C12": dict(
    level="exploration",
@@ -50,18 +50,18 @@ CHECKS = {
    level="exploration",
    technique="property-based testing (proptest: edit scripts over the bundled files, generated databases with injected problems and known values, scale cases, mutated currency JSON) with a crash/hang oracle in a supervised worker and a named-problem / surviving-value oracle",
    text="Mutated bundled files, generated databases (values known to the generator) with up to four injected problems of the kinds the loader says it reports, scale cases (cycles to 10000, alias chains, 10^5 blanks, parentheses to depth 1000) and mutated currency JSON are loaded in a worker process (8 MiB stack, 3 GiB, 20 s budget): the load must return, its error text must name every injected problem's definition, and afterwards the same context must give every surviving generated unit exactly the generator's value and still do arithmetic.",
-   note="Texts containing a literal exponent above 5000 are excluded (C04's resource clause). One recorded finding: unbounded recursion beyond ~10000-long chains/cycles (witnesses replayed).",
+   note="Texts containing a literal exponent or power above 5000 are excluded (C04's resource clause); raw fuzzer texts are also sized definition by definition with C04's static cost bound. After every load 20 fixed queries (8 for generated databases) exercise the evaluator paths that look up fixed names; second loads on top of the bundled database are generated too.",
    design="§4 C13"),
  "C14": dict(
    level="exploration",
    technique="property-based testing (proptest) against an own proleptic-Gregorian calendar and RFC 3339 reader, with round-trip relations",
-   text="Instants (years 1..9999, nanoseconds, fixed offsets to +-23:59 and named zones) are written in eight documented literal patterns; the reply's rfc3339 read by an own reader must be the instant an own calendar computes; (d + t) - d = t and (d - t) + t = d exactly for t = k ns in nine time units with exact rational coefficients up to the documented maximum; d1 - d2 equals the calendar difference; re-zoning keeps the instant and shows the offset, offsets of 24 h or more are refused.",
+   text="Instants (years 1..9999, nanoseconds, fixed offsets to +-23:59 and named zones) are written in eight documented literal patterns; the reply's rfc3339 read by an own reader must be the instant an own calendar computes; (d + t) - d = t and (d - t) + t = d exactly for t = k ns in nine time units with exact rational coefficients up to the documented maximum; d1 - d2 equals the calendar difference; re-zoning keeps the instant and shows the offset, offsets of 24 h or more are refused. Further phases: literals whose own fields are out of range or that use the ISO-week and month-day patterns; time-only zoned literals with the context clock set to days on which a zone's clocks change; subtractions written the other way round (`t - d`), which must be refused.",
    note="Named zones have no independent oracle: wall-clock fields and instant preservation only; zoned literals before 1980 and DST-gap wall-clock times are excluded (counted).",
    design="§4 C14"),
  "C15": dict(
    level="exploration",
    technique="model-based property testing (proptest query histories against a reference model of `ans`) with a differential oracle against a pristine context",
-   text="Histories of 5-40 queries over 15 classes run through rink_core::eval on one context with the feature flag on or off and the previous answer unset or preset: previous_result must follow a reference model after every step, every reply (as JSON) must equal the reply of the same query on a pristine context given the model's previous answer (once per history also on a newly loaded context), and afterwards the exact registry dump and settings must be unchanged.",
+   text="Histories of 5-40 queries over 15 classes run through rink_core::eval on one context with the feature flag on or off and the previous answer unset or preset: previous_result must follow a reference model after every step, every reply (as JSON) must equal the reply of the same query on a pristine context given the model's previous answer (once per history also on a newly loaded context), and afterwards the exact registry dump and settings must be unchanged. The class of a query (command, conversion, plain expression) is read off the words of the line, not off rink's parse.",
    note="A time-valued plain expression counts as a numeric result (stated assumption). Queries depending on `now` are not generated because eval() re-reads the clock by design.",
    design="§4 C15"),
  "C16": dict(
@@ -74,18 +74,18 @@ CHECKS = {
    level="exploration",
    technique="exhaustive enumeration of every quantity and occurring dimensionality in several spellings plus proptest-generated exponent vectors, with a set-equality oracle over a registry filter",
    text="Every named quantity and every dimensionality among stored units (as quantity name, as up to three units, as base-unit product) plus random exponent vectors: `units for` must list exactly the registry's non-alias units of that dimensionality (plus the base unit's long name for a first power), once each, under their own category; every `factorize` entry must multiply out to the dimensionality with no duplicates; all spellings must give identical lists.",
-   note="factorize only for complexity score <= 6 (the search is exponential above; see C04).",
+   note="factorize only for complexity score <= 10 (costlier searches, up to the refusal of hopeless ones, are run by C04). Category display names and alias status are read from the definitions file, not from the registry.",
    design="§4 C17"),
  "C18": dict(
    level="fault_enumeration",
    technique="fault-sequence enumeration (all request sequences of length 1..3 over six request kinds) plus proptest-generated longer sequences with gaps, one Sandbox driver process per sequence, per-request oracle with id echo",
-   text="A test Service (add, panic, sleep, allocate, exit, large payload) runs under rink_sandbox::Sandbox in a driver process; every sequence of length <= 3 and random sequences of length 4-6 with gaps 0/50/300 ms are executed: exactly one reply per request in order, the right class of result, the request's own id echoed (no stale reply), and every request after a fault served normally by a restarted child.",
+   text="A test Service (add, panic, sleep, allocate, exit, large payload) runs under rink_sandbox::Sandbox in a driver process; every sequence of length <= 3 and random sequences of length 4-6 with gaps 0/50/300 ms are executed: exactly one reply per request in order, the right class of result, the request's own id echoed (no stale reply), and every request after a fault served normally by a restarted child. Two further request kinds put a child out of reach before a request arrives - one that answers and then exits by itself a few milliseconds later (death while idle), one whose payload is twice the memory limit - in every position of sequences of length <= 3, with gaps 0 / 150 ms.",
    note="Timing inputs stay far from the limits (sleep <= limit/4 or >= 3x limit); load-sensitive deviations count only if they reproduce in 3 consecutive runs; the Ctrl-C path is not exercised.",
    design="§4 C18"),
  "C20": dict(
    level="fault_enumeration",
    technique="fault enumeration over (prior cache state x scripted HTTP server fault x entry point x kill point), kill points injected with strace at syscall entry, against the real rink binary",
-   text="The rink binary built from the working tree runs with scratch XDG dirs against a scriptable local HTTP server (complete, cut after k bytes with FIN/RST, chunked cut, header cut, error statuses, stalls, refused) and is killed at enumerated file-system syscalls; afterwards the cache bytes must be exactly the prior or the complete new contents, rink must still start, answer a non-currency query, fall back to a stale cache, and show new rates after a successful refresh.",
+   text="The rink binary built from the working tree runs with scratch XDG dirs against a scriptable local HTTP server (complete, cut after k bytes with FIN/RST, chunked cut, header cut, error statuses, stalls, refused) and is killed at enumerated file-system syscalls; afterwards the cache bytes must be exactly the prior or the complete new contents, rink must still start, answer a non-currency query, fall back to a stale cache, and show new rates after a successful refresh. A phase of corner scenarios adds: a 200 whose body is delimited only by the close of the connection and stops early; the interactive prompt with `[limits] enabled = true` (a sandboxed second process loads the configuration and refreshes again); a configured timeout below one millisecond against a stalling server (a run that does not end within 25 s, twice, is the violation there).",
    note="kill -9 semantics only (no power-fail simulation); rename(2) atomicity is trusted; falls back to server-paced kills if ptrace is unavailable (evidence says which mode ran).",
    design="§4 C20"),
  "C05": dict(
@@ -104,7 +104,7 @@ CHECKS = {
    level="exploration",
    technique="property-based testing (proptest) of the mixed-radix decomposition laws recomputed with own rationals",
    text="Random values (zero, tiny, huge, negative, non-terminating) times lists of 2..6 units from one dimensionality class in random/ascending/descending order with repeats, and time values for the automatic breakdown: sum(part_i*u_i) = v exactly, inner parts integers, signs agree, each remainder smaller than the unit just used, last remainder zero; lists with a stranger or a value of another class must be refused.",
-   note="Units with non-positive or float values are excluded from lists (named in evidence).",
+   note="Units with non-positive or float values are excluded from lists (named in evidence). Float *values* are outside the quantifier; two extra phases break them down all the same (sum within 1e-9 relative).",
    design="§4 C09"),
  "C10": dict(
    level="exploration",
@@ -116,12 +116,12 @@ CHECKS = {
    level="exploration",
    technique="exhaustive enumeration of operator nestings plus property-based testing (proptest) of the print/parse round-trip",
    text="Skeletons (operator kinds x operand slots) are rendered fully parenthesised and parsed by rink to obtain parser-producible trees with exactly that nesting; every chain of nested (kind, slot) pairs to depth 3 (quick) / 4 (thorough) and random skeletons to depth 8 must satisfy parse_expr(e.to_string()) == e with all input consumed, also through serde_json of a DefEntry.",
-   note="Numeric leaves only when they print exactly (the statement's precondition); dates and error nodes excluded. One recorded finding (names needing quotes).",
+   note="Numeric leaves only when they print exactly (the statement's precondition); dates and error nodes excluded. All expressions of the bundled definition files are round-tripped too.",
    design="§4 C11"),
  "C19": dict(
    level="exploration",
    technique="model-based property testing (bounded-exhaustive and proptest operation sequences against a reference model) plus barrier-synchronised multi-thread stress with a sound lower-bound oracle",
-   text="Every operation sequence up to length 4 (quick) / 5-6 (thorough) over alloc/alloc_zeroed/realloc/dealloc/read-usage/read-peak/set_limit with boundary sizes on a private Alloc, and random sequences to 400 operations, are run against a reference model: usage = sum of live sizes, success => within limit, refusal => usage unchanged and block intact, peak >= model peak; 2..16 threads hit the limit simultaneously in barrier-released rounds while a harness counter that lower-bounds true usage must never exceed the limit.",
+   text="Every operation sequence up to length 4 (quick) / 5-6 (thorough) over alloc/alloc_zeroed/realloc/dealloc/read-usage/read-peak/set_limit with boundary sizes on a private Alloc, and random sequences to 400 operations, are run against a reference model: usage = sum of live sizes, success => within limit, refusal => usage unchanged and block intact, peak >= model peak; 2..16 threads hit the limit simultaneously in barrier-released rounds while a harness counter that lower-bounds true usage must never exceed the limit. One thread role calls reset_max() inside the bursts, racing the other threads' operations.",
    note="Thread phase samples schedules (does not enumerate them); Layout align fixed to 8; a refusal of a request that would have fit is allowed (the statement is one-directional).",
    design="§4 C19"),
 }
